@@ -124,6 +124,10 @@ class _FuncInline(SiteRewriter):
         self.recursive = recursive
 
         self.gensym = Gensym(self.def_use.names())
+        self._locals = {
+            d.name for d in self.def_use.defs
+            if isinstance(d, AssignDef) and not d.is_free
+        }
         self.free_vars = set(func.free_vars)
         self.env = func.env.copy()
 
@@ -183,6 +187,12 @@ class _FuncInline(SiteRewriter):
 
         # merge free variables
         for name in ast.free_vars:
+            if name in self._locals:
+                # the callee's body would read the caller's variable instead
+                raise RuntimeError(
+                    f'cannot inline function `{e.fn.name}`: its free variable '
+                    f'`{name}` is a local variable of the caller'
+                )
             if str(name) in self.env:
                 # already in the environment, check that it is the same
                 val = self.env.get(str(name))
